@@ -104,6 +104,8 @@ func (dr *DialogueRunner) Next(choice int) (*DialogueElement, error) {
 				statements: statements,
 			})
 		}
+		// the choice has been consumed: it must not be applied again by a later call
+		dr.lastStatement = nil
 	}
 
 	if dr.statementsToRun.Size() == 0 {
@@ -180,6 +182,8 @@ func (dr *DialogueRunner) Next(choice int) (*DialogueElement, error) {
 		if stop, err := dr.executeCommandStatement(nextStatement.CommandStatement); err != nil {
 			return nil, fmt.Errorf("failed to execute command statement: %w", err)
 		} else if stop {
+			// stopping abandons everything that was still pending
+			dr.statementsToRun.Clear()
 			return nil, nil
 		} else if dr.commandErrChan != nil {
 			return nil, ErrWaitingForCommandCompletion
